@@ -166,6 +166,63 @@ func ReachingStore(load *ssa.UnOp) ssa.Value {
 	return nil
 }
 
+// SingleFieldStore: addr is &local.f of a local struct variable that does not escape (it is only filled field by
+// field, read, and copied by value); it returns the only value ever stored into that field, or nil.
+func SingleFieldStore(addr ssa.Value) ssa.Value {
+	fa, ok := addr.(*ssa.FieldAddr)
+	if !ok {
+		return nil
+	}
+	al, ok := fa.X.(*ssa.Alloc)
+	if !ok || al.Referrers() == nil {
+		return nil
+	}
+	var val ssa.Value
+	n := 0
+	for _, ref := range *al.Referrers() {
+		switch x := ref.(type) {
+		case *ssa.FieldAddr:
+			if x.Referrers() == nil {
+				return nil
+			}
+			for _, rr := range *x.Referrers() {
+				switch y := rr.(type) {
+				case *ssa.Store:
+					if y.Addr != ssa.Value(x) {
+						return nil // the field's address is stored somewhere
+					}
+					if x.Field == fa.Field {
+						val = y.Val
+						n++
+					}
+				case *ssa.UnOp, *ssa.DebugRef:
+				case *ssa.FieldAddr, *ssa.IndexAddr:
+					if x.Field == fa.Field {
+						return nil // partial update of the field itself
+					}
+				default:
+					if x.Field == fa.Field {
+						return nil
+					}
+				}
+			}
+		case *ssa.UnOp, *ssa.DebugRef:
+			// whole-value load (copy, return)
+		case *ssa.Store:
+			if x.Addr == ssa.Value(al) {
+				return nil // assigned as a whole
+			}
+			return nil
+		default:
+			return nil // escapes
+		}
+	}
+	if n == 1 {
+		return val
+	}
+	return nil
+}
+
 // CellStores exposes all stores to a cell (nil, true when they cannot be enumerated).
 func CellStores(addr ssa.Value) ([]*ssa.Store, bool) { return cellStores(addr, 0) }
 
@@ -186,6 +243,11 @@ func origin(v ssa.Value, seen map[ssa.Value]bool) ssa.Value {
 					continue
 				}
 				if st := ReachingStore(x); st != nil && !seen[st] {
+					seen[st] = true
+					v = st
+					continue
+				}
+				if st := SingleFieldStore(x.X); st != nil && !seen[st] {
 					seen[st] = true
 					v = st
 					continue
